@@ -193,6 +193,7 @@ def sec_metrics(nm):
         ("average-tuple", lambda: g.average(temp, (Y, X))), ("derivative", lambda: g.derivative(temp, X)), ("cumint", lambda: g.cumint(temp, X, to="left", boundary="fill")),
         ("mw", lambda: g.diff(temp, X, metric_weighted=(X, Y))), ("mw-str", lambda: g.interp(temp, Y, metric_weighted=Y)),
         ("mw-map", lambda: g.interp(temp, [X, Y], metric_weighted={X: (X,), Y: (Y,)})),
+        ("mw-map-str", lambda: g.interp(temp, [X, Y], metric_weighted={X: X, Y: [Y]})), ("mw-map-str1", lambda: g.diff(temp, Y, metric_weighted={Y: Y})),
         ("get_metric", lambda: g.get_metric(temp, (X, Y))), ("get_metric-str", lambda: g.get_metric(temp, X)),
         ("set_metrics", lambda: (g.set_metrics(X, N["var_dxc"], overwrite=True), g.get_metric(temp, [X]))[1]),
         ("interp_like", lambda: g.interp_like(ds[N["var_dxg"]], temp)),
